@@ -19,39 +19,25 @@ def arealSrc (f : Fmt) (b : Nat) : Areal.Src :=
   else if isInf f b then .inf (signOf f b)
   else .fin (signOf f b) (dyadic (mant f b) (ulpExp f b))
 
-/-- input class of a source w.r.t. a target configuration (decidable on the inputs alone); "" = no known defect
-    region.  The regions are those of DESIGN.md D13 plus what the correspondence runs exposed:
-    * `areal.assign.nan_payload`        NaN whose fraction is not one of the two recognised patterns
-    * `areal.assign.exp_eq_MAX_EXP`     finite, unbiased exponent == MAX_EXP (the test is `exponent > MAX_EXP`)
-    * `areal.assign.top_binade_allones` finite, unbiased exponent == MAX_EXP-1 and the top fbits fraction bits all
-                                         ones (the result collides with the inf / NaN patterns)
-    * `areal.assign.subnormal_source`   subnormal float/double (no hidden bit, exponent field 0) that is not flushed
-    * `areal.assign.target_not_narrower` target fbits ≥ source fbits - 1 ("not implemented yet" branches)        -/
-def arealClass (c : Areal.Model.Cfg) (f : Fmt) (b : Nat) : String :=
-  let e := expOf f b
-  let fr := fracOf f b
-  if e == f.eAll then
-    if fr != 0 && fr != 1 && fr != 2 ^ (f.fbits - 1) then "areal.assign.nan_payload" else ""
-  else if e == 0 && fr == 0 then ""
-  else
-    let exponent : Int := (e : Int) - (f.bias : Int)
-    if exponent > c.MAX_EXP || exponent < c.MIN_EXP_SUBNORMAL then ""
-    else if (f.fbits : Int) - (c.fbits : Int) - 1 ≤ 0 then "areal.assign.target_not_narrower"
-    else if exponent == c.MAX_EXP then "areal.assign.exp_eq_MAX_EXP"
-    else if e == 0 then "areal.assign.subnormal_source"
-    else if exponent == c.MAX_EXP - 1 && (fr >>> (f.fbits - c.fbits)) == 2 ^ c.fbits - 1 then "areal.assign.top_binade_allones"
-    else ""
+/- No input class is attached to an areal line any more: the five D13 regions (NaN payloads, exponent == MAX_EXP, the
+   all-ones corner of the top binade, subnormal sources, targets not narrower than the source) were repaired in the
+   library; a source that is not enclosed is an UNKNOWN class, i.e. a violation. -/
 
 private def srcTag (c : Areal.Model.Cfg) (f : Fmt) (b : Nat) : String :=
   let e := expOf f b
   if e == f.eAll then (if fracOf f b == 0 then "inf" else "nan")
   else if e == 0 && fracOf f b == 0 then "zero"
   else
-    let exponent : Int := (e : Int) - (f.bias : Int)
-    if exponent > c.MAX_EXP then "above-range"
-    else if exponent < c.MIN_EXP_SUBNORMAL then "below-range"
-    else if exponent < c.MIN_EXP_NORMAL then "subnormal-target"
-    else "normal-target"
+    let exponent : Int := if e == 0 then (fracOf f b).log2 - (f.fbits : Int) + 1 - (f.bias : Int) else (e : Int) - (f.bias : Int)
+    let src := if e == 0 then "subnormal-src/" else ""
+    let wide := if (f.fbits : Int) - (c.fbits : Int) - 1 < 0 then "wider/" else if f.fbits == c.fbits + 1 then "shift0/" else ""
+    if exponent ≥ c.MAX_EXP then src ++ "above-range"
+    else if exponent < c.MIN_EXP_SUBNORMAL then src ++ "below-range"
+    else if exponent < c.MIN_EXP_NORMAL then src ++ wide ++ "subnormal-target"
+    else if exponent == c.MAX_EXP - 1 &&
+        (if f.fbits ≥ c.fbits then (fracOf f b) >>> (f.fbits - c.fbits) == 2 ^ c.fbits - 1 && e != 0
+         else false) then src ++ wide ++ "top-corner"
+    else src ++ wide ++ "normal-target"
 
 def arealHandler : Handler := fun lhs rhs => do
   match lhs with
@@ -70,7 +56,7 @@ def arealHandler : Handler := fun lhs rhs => do
       let m := if op == "f32" then Areal.Model.assignF32 mc x else Areal.Model.assignF64 mc x
       let src := arealSrc f x
       let ok := Areal.encloses sc src o
-      let cls := if ok then "" else arealClass mc f x
+      let cls := ""
       let exact := o % 2 == 0
       let expected := match src with
         | .fin neg v => toHex (Areal.enclosing sc neg v)
@@ -84,7 +70,8 @@ def arealHandler : Handler := fun lhs rhs => do
       let some d := parseHex ds | throw "native"
       let some back := parseHex backs | throw "back"
       let f := if op == "tof" then f32 else f64
-      if es > 7 then throw "to_native is undefined behaviour for es >= 8 (shift count); not a harness configuration"
+      -- the model writes the factor 2^exponent at value level: exact in binary64 for es ≤ 10, in binary32 for es ≤ 7
+      if (op == "tof" && es > 7) || es > 10 then throw "to_native: 2^exponent leaves the native range; not a harness configuration"
       let mNat := Areal.Model.toNative mc f x
       let mBack := if op == "tof" then Areal.Model.assignF32 mc mNat else Areal.Model.assignF64 mc mNat
       -- spec: value of the encoding with the ubit ignored; NaN ↦ NaN, inf ↦ inf, sign of zero kept; and the
@@ -100,11 +87,29 @@ def arealHandler : Handler := fun lhs rhs => do
       let okBack :=
         if Areal.isNaN sc xm then Areal.isNaN sc back && back < 2 ^ n
         else back == lower
-      let cls := if okVal && !okBack then arealClass mc f d else ""
+      let cls := ""
       return { model := s!"{toHex mNat} {toHex mBack}" |> fun s => padNative f s, specOk := okVal && okBack,
                reason := if !okVal then "to_native is not the value of the encoding with the ubit cleared"
                          else "converting the native value back does not give the encoding with the ubit cleared",
                cls := cls, tag := s!"{op}/{if Areal.isNaN sc xm then "nan" else if Areal.isInf sc xm then "inf" else if xm % 2 == 1 then "ubit" else "exact"}",
+               trivial := Areal.isNaN sc xm || Areal.isInf sc xm }
+    | "told", [ds] =>
+      -- to_native<long double> (x86-64, 64-bit significand) as the virtual implicit-bit format ⟨15, 63⟩
+      let some d := parseHex ds | throw "native"
+      let f : Fmt := ⟨15, 63⟩
+      if es > 10 then throw "to_native<long double>: 2^exponent is built in double; not a harness configuration"
+      let mNat := Areal.Model.toNative mc f x
+      let xm := x % 2 ^ n
+      let lower := xm - xm % 2
+      let okVal :=
+        if Areal.isNaN sc xm then isNaN f d
+        else if Areal.isInf sc xm then isInf f d && signOf f d == Areal.signOf sc xm
+        else
+          isFinite f d && signOf f d == Areal.signOf sc xm &&
+            dyadic (mant f d) (ulpExp f d) == Areal.magVal sc (Areal.magOf sc lower)
+      return { model := toHex mNat, specOk := okVal,
+               reason := if okVal then "" else "to_native<long double> is not the value of the encoding with the ubit cleared",
+               cls := "", tag := s!"{op}/{if Areal.isNaN sc xm then "nan" else if Areal.isInf sc xm then "inf" else if xm % 2 == 1 then "ubit" else "exact"}",
                trivial := Areal.isNaN sc xm || Areal.isInf sc xm }
     | _, _ => throw s!"unknown op/arity {op}"
   | _ => throw "arity"
